@@ -8,6 +8,11 @@ import Influx.Spec.C16
 namespace Influx.Model.DelPred
 open Influx.Spec.C16 (Op Ans)
 
+/-- the key handed to `Matches`: the series key, or the composite key `series#!~#field` -/
+def opKey (name : Bytes) (tags : List (Bytes × Bytes)) : Option Bytes → Bytes
+  | none => seriesKey name tags
+  | some f => compositeKey (seriesKey name tags) f
+
 /-- one op on the model; state = the matcher in force (`none` = none built / build failed) -/
 def stepOp (st : Option Matcher) : Op → Option Matcher × Ans
   | .setPred p => match newMatcher (toDataType p) with
@@ -22,10 +27,7 @@ def stepOp (st : Option Matcher) : Op → Option Matcher × Ans
   | .matchSeries name tags field => match st with
     | none => (none, .noPred)
     | some m =>
-      let key := match field with
-        | none => seriesKey name tags
-        | some f => compositeKey (seriesKey name tags) f
-      match m.matches key with
+      match m.matches (opKey name tags field) with
       | some (b, m') => (some m', .bool b)
       | none => (some m, .other "panic")
 
